@@ -28,10 +28,10 @@ ASSUMPTIONS = ["identities involving a division are asserted where |root value| 
 
 def plan(tier):
     q = tier == "quick"
-    return [dict(unit="reports", n=300 if q else 8000, builds=["py", "so"], case_timeout=180),
-            dict(unit="fi", n=100 if q else 3000, builds=["py"], case_timeout=180),
-            dict(unit="mixed", n=100 if q else 3000, builds=["py"], case_timeout=180),
-            dict(unit="replay", n=200 if q else 6000, builds=["py", "so"], case_timeout=180)]
+    return [dict(unit="reports", n=300 if q else 3200, builds=["py", "so"], case_timeout=180),
+            dict(unit="fi", n=100 if q else 1200, builds=["py"], case_timeout=180),
+            dict(unit="mixed", n=100 if q else 1200, builds=["py"], case_timeout=180),
+            dict(unit="replay", n=200 if q else 2400, builds=["py", "so"], case_timeout=180)]
 
 
 def floors(tier):
